@@ -1868,8 +1868,11 @@ class BootstrapElectionModel(BaseElectionModel):
             # how many states have lower_q (or more) realizations with GOP victory
             lower_states = np.mean(agg_pred_margin_dist < 0, axis=1) > lower_q
 
-            potential_losses = pred_states - (~lower_states).astype(int)
-            potential_gains = upper_states.astype(int) - pred_states
+            # a contest can only be lost if it is predicted to be won (and vice versa): without the floor at zero a
+            # predicted loser whose bootstrap realizations are (almost) all wins would count as a negative loss and
+            # push the lower bound of the summary above the point prediction
+            potential_losses = np.maximum(pred_states - (~lower_states).astype(int), 0)
+            potential_gains = np.maximum(upper_states.astype(int) - pred_states, 0)
 
         if self.called_contests is not None:
             # if there is a call, there is no uncertainty in the outcome
